@@ -717,9 +717,15 @@ def purity_family(ck, classes, pool, mode="check"):
                 qc.sx(q)          # every qubit is used, so the layered classes accept the circuit
             for q in range(n):
                 qc.measure(q, q)
-            dev = {"T1": np.arange(1, n + 1) * 1e-4, "T2": np.arange(1, n + 1) * 2e-4, "p": np.arange(1, n + 1) * 1e-3,
+            # any parameter table a run accepts: T2 below, at and ABOVE 2*T1 (calibration data does report T2 > 2*T1), zeros ("off"),
+            # numpy arrays or plain lists; both gate sets of this family are deterministic and ignore the values
+            T1v = np.arange(1, n + 1) * 1e-4
+            T2v = T1v * np.array([rng.choice([0.5, 2.0, 2.3, 3.0, 0.0]) for _ in range(n)])
+            dev = {"T1": T1v, "T2": T2v, "p": np.arange(1, n + 1) * 1e-3,
                    "rout": np.arange(1, n + 1) * 1e-2, "p_int": np.full((n, n), 1e-2), "t_int": np.full((n, n), 3e-7),
                    "tm": np.arange(1, n + 1) * 1e-6, "dt": np.array([2.2e-10])}
+            if rng.random() < 0.3:
+                dev = {k: v.tolist() for k, v in dev.items()}
             psi0 = np.zeros(2 ** n, dtype=complex); psi0[rng.randrange(2 ** n)] = 1
             layout = list(range(n))
             for gname, gates in (("counting", CountingGates(pool)), ("noise_free", NoiseFreeGates())):
